@@ -686,11 +686,13 @@ class SymStr(Proxy):
             return getattr(self.literal(), op)()
         name = '%s(%s)' % (op, self.key())
         r = SymStr.sym(name)
-        try:
-            n = self.vf_len().e
-            cur().add_axiom(len_rel(sym_len(name), n))
-        except Unsupported:
-            pass
+        from .explore import Run
+        if Run.cur is not None:
+            try:
+                n = self.vf_len().e
+                cur().add_axiom(len_rel(sym_len(name), n))
+            except Unsupported:
+                pass
         return r
 
     def strip(self, *a):
@@ -721,7 +723,10 @@ class SymStr(Proxy):
 
 def sym_len(name):
     t = z3.Int('len!%s' % name)
-    r = cur()
+    from .explore import Run
+    r = Run.cur
+    if r is None:
+        return t                      # clause evaluation after the run: axioms are already on the path
     key = ('len', name)
     if key not in r.state.setdefault('_len_ax', set()):
         r.state['_len_ax'].add(key)
